@@ -10,6 +10,8 @@ mod c18;
 mod c05;
 mod prog;
 mod c03;
+mod schema;
+mod c16;
 
 fn main() {
     let args: Vec<String> = std::env::args().collect();
@@ -27,6 +29,7 @@ fn main() {
         "C12" => c12::run(&mut sink, thorough, seed),
         "C05" => c05::run(&mut sink, thorough, seed),
         "C03" => c03::run(&mut sink, thorough, seed),
+        "C16" => c16::run(&mut sink, thorough, seed),
         "replay" => { /* replay lines are `op args…` on stdin */
             let mut s = String::new();
             use std::io::Read;
@@ -52,6 +55,7 @@ fn replay(sink: &mut common::Sink, toks: &[&str]) {
         "stream" => c12::replay(sink, toks),
         "esc" | "escbufs" | "hex4" | "hex4s" | "scan" => c05::replay(sink, toks),
         "serc" | "serp" | "serbufs" | "serbufx" | "disp" => c03::replay(sink, toks),
+        "c16" => c16::replay(sink, toks),
         _ => eprintln!("cannot replay op {}", toks[0]),
     }
 }
